@@ -170,6 +170,7 @@ func inAgentBubble(r *Run, f func(w *AWorld)) {
 		defer func() { http.DefaultTransport = prevT }()
 		w.fs.PutDir("/etc/whawty", 0o755)
 		w.fs.PutDir("/run/whawty", 0o755)
+		w.fs.PutDir("/tmp", 0o777)
 		f(w)
 	})
 }
@@ -872,4 +873,12 @@ func (w *AWorld) netDeliverOne() bool {
 	synctest.Wait()
 	w.observe()
 	return true
+}
+
+// fsYields makes every file-system operation of a goroutine the scheduler knows a scheduling
+// point (swarm option: costs one step per operation, so only some runs use it). With it a
+// goroutine that walks the store directory can be interleaved with one that renames in it.
+func (w *AWorld) fsYields() {
+	w.fs.Gate = func() { simrt.Yield("fs") }
+	w.r.Count("probe:runs-with-fs-operation-yields")
 }
